@@ -1157,6 +1157,79 @@ func c17HintRune(v interface{}) (rune, bool) {
 	return 0, false
 }
 
+// c17WrapperInside: "all positions and depths" also for the wrappers themselves. The reference is the same wrapper as a
+// top-level operand (checked against the statement by laws 1 and 2); a container only adds fmt's punctuation.
+func c17WrapperInside(t *testing.T, st *c17Stats) {
+	type pos struct {
+		name  string
+		build func(a interface{}) interface{}
+		text  func(s string) string
+		wrap  func(top, verb string) string
+	}
+	poss := []pos{
+		{"field", func(a interface{}) interface{} { return c17HoldAny{a} }, func(s string) string { return "c17HoldAny{Any: " + s + "}" }, func(x, verb string) string {
+			if verb == "+v" {
+				return "{Any:" + x + "}"
+			}
+			return "{" + x + "}"
+		}},
+		{"slice", func(a interface{}) interface{} { return []interface{}{a} }, func(s string) string { return "[]interface{}{" + s + "}" }, func(x, verb string) string { return "[" + x + "]" }},
+		{"map", func(a interface{}) interface{} { return map[SafeString]interface{}{"k": a} }, func(s string) string { return `map[SafeString]interface{}{"k": ` + s + "}" }, func(x, verb string) string { return "map[" + string(Sprintf("%"+verb, SafeString("k"))) + ":" + x + "]" }},
+		{"reflect", func(a interface{}) interface{} { return reflect.ValueOf(a) }, func(s string) string { return "reflect.ValueOf(" + s + ")" }, func(x, verb string) string { return x }},
+	}
+	for k := range c17Table {
+		op := c17Table[k]
+		if op.kind != c17KHook || op.err == nil {
+			continue
+		}
+		for _, ps := range poss {
+			for _, verb := range []string{"v", "+v", "s", "d", "q"} {
+				for _, unsafe := range []bool{false, true} {
+					if st.fails >= st.maxFails {
+						return
+					}
+					var w interface{}
+					wn := ""
+					if unsafe {
+						w, wn = Unsafe(op.err), "Unsafe("+op.name+")"
+					} else {
+						w, wn = Safe(op.err), "Safe("+op.name+")"
+					}
+					format := "%" + verb
+					run := func(a interface{}) (s string, calls int, pv interface{}) {
+						defer func() { pv = recover() }()
+						c17Reset()
+						s = string(Sprintf(format, a))
+						calls = len(c17Calls)
+						c17Reset()
+						return
+					}
+					top, topCalls, pv0 := run(w)
+					got, calls, pv := run(ps.build(w))
+					call := fmt.Sprintf("Sprintf(%q, %s) /* hook installed */", format, ps.text(wn))
+					st.cases++
+					st.nontrivial++
+					if pv0 != nil || pv != nil {
+						c17Fail(t, st, call, fmt.Sprint("panic: ", pv0, pv), "panic")
+						continue
+					}
+					if unsafe && calls != 0 {
+						c17Fail(t, st, call, got, "the hook must be bypassed under Unsafe")
+						continue
+					}
+					if !unsafe && calls != topCalls {
+						c17Fail(t, st, call, got, fmt.Sprintf("the hook is called %d times, %d times for the same wrapper as a top-level operand", calls, topCalls))
+						continue
+					}
+					if want := ps.wrap(top, verb); got != want {
+						c17Fail(t, st, call, got, fmt.Sprintf("differs from the rendering of the same wrapper as a top-level operand (%q) inside the container's punctuation: want %q", top, want))
+					}
+				}
+			}
+		}
+	}
+}
+
 func TestVerifReplayC17(t *testing.T) {
 	defer c17Install()()
 	st := &c17Stats{maxFails: 12}
@@ -1233,6 +1306,12 @@ func TestVerifBoundedC17(t *testing.T) {
 	c17ConfigLaw(t, st4, shapes, specs)
 	c17Bounded("configurations: a second RegisterRedactErrorFn replaces the first hook; after RegisterRedactErrorFn(nil) no hook is called and the text (markers stripped) equals fmt's, fully enveloped under Unsafe",
 		st4, "operand is a non-nil error that is not a SafeFormatter/SafeMessager", desc+" (one-operand positions, Sprintf)")
+
+	// law 5: the wrapper sits INSIDE the position (field, interface-typed element, map value, reflect.Value operand)
+	st6 := &c17Stats{maxFails: 8}
+	c17WrapperInside(t, st6)
+	c17Bounded("Safe(err)/Unsafe(err) held in an exported interface-typed field, a []interface{} element, a map value or a reflect.Value operand renders exactly like the same wrapper as a top-level operand inside fmt's container syntax: hook bypassed and plain text enveloped under Unsafe, rendered solely by the hook under Safe",
+		st6, "all cases: a non-nil error that must go to the hook, wrapped, inside a container", fmt.Sprintf("%d operands x 4 positions x verbs {v,+v,s,d,q} x {Safe, Unsafe}", len(c17Table)))
 
 	// not claimed: unexported fields
 	st5 := &c17Stats{maxFails: 8}
